@@ -33,6 +33,7 @@ import (
 	"strings"
 	"time"
 
+	"github.com/krotik/ecal/config"
 	"github.com/krotik/ecal/interpreter"
 	"github.com/krotik/ecal/parser"
 	"github.com/krotik/ecal/scope"
@@ -284,6 +285,9 @@ func c06one(c *Ctx, d c06case) {
 		return
 	case "timeout":
 		c.Dist["timeouts"]++
+		if len(c.Notes) < 12 {
+			c.Notes = append(c.Notes, "timed out: "+tail(d.Src, 160))
+		}
 		c.Count(d.Src, true, d)
 		return
 	case "parse-error":
@@ -469,15 +473,18 @@ func c06stream1(c *Ctx, emit func(c06case)) {
 		{"1", "try {\n  raise()\n} except e {\n  1\n}\nnull", "(CTryRaise 0)"},
 		{"1", "try {\n  raise()\n} except {\n  1\n}\nnull", "(CTryRaise 0)"},
 		{"1", "try {\n  raise(\"a\")\n} except e {\n  1\n}\nnull", "(CTryRaise 1)"},
+		// the same like node evaluated repeatedly with an invalid pattern
+		{"1r", "for i in range(1, 3) {\n  try {\n    x := \"a\" like \"(\"\n  } except {\n  }\n}", ""},
+		{"1r", "func f(p) {\n  return \"a\" like p\n}\ntry {\n  f(\"(\")\n} except {\n}\ntry {\n  f(\"(\")\n} except {\n}\nf(\"a\")", ""},
 		// doc() with an argument whose first child is a constructed node (no token)
 		{"1", "m := {}\ndoc(m[\"\"])", ""},
 		{"1", "func g() {\n}\ndoc(g())", ""},
 		{"1", "m := {}\ndoc(m.x, 1)", ""},
 	}
+	c.Extra["corpus"] = len(corpus)
 	for _, d := range corpus {
 		emit(d)
 	}
-	c.Extra["corpus"] = len(corpus)
 
 	all := append(append([]c06val{}, c06U...), c06X...)
 
@@ -644,6 +651,82 @@ func c06stream1(c *Ctx, emit func(c06case)) {
 		emit(c06case{"1", c06prelude + "try {\n  raise(" + a.Src + ")\n} except e {\n  1\n}\nnull", "(CTryRaise 1)"})
 		emit(c06case{"1", c06prelude + "try {\n  raise(" + a.Src + ", " + a.Src + ", " + a.Src + ")\n} except \"x\" {\n  1\n} except {\n  2\n}\nnull", "(CTryRaise 3)"})
 	}
+}
+
+// ------------------------------------------------------------------------------- stream 1r: repeated evaluation
+
+// A runtime node may keep state between evaluations (caches, iterator state): every
+// primitive is therefore ALSO evaluated several times by the SAME node — inside a loop,
+// inside a function called three times, and with alternating (valid / invalid) operands.
+// No model is needed: any panic is a violation.
+
+func c06indent(src, ind string) string {
+	return ind + strings.ReplaceAll(src, "\n", "\n"+ind)
+}
+
+func c06wrapLoop(src string) string {
+	return "for i in range(1, 3) {\n  try {\n" + c06indent(src, "    ") + "\n  } except {\n  }\n}"
+}
+
+func c06wrapFunc(src string) string {
+	call := "try {\n  rep()\n} except {\n}\n"
+	return "func rep() {\n" + c06indent(src, "  ") + "\n}\n" + call + call + call
+}
+
+// c06repeat runs the wrapped variants of one stream-1 case.
+func c06repeat(c *Ctx, d c06case) {
+	if strings.Contains(d.Src, "sink ") {
+		return // a sink can only be declared once (covered by the child stream: events fire twice)
+	}
+	c06one(c, c06case{Stream: "1r", Src: c06wrapLoop(d.Src)})
+	c06one(c, c06case{Stream: "1r", Src: c06wrapFunc(d.Src)})
+}
+
+func c06alternating(c *Ctx) []c06childProg {
+	var ps []c06childProg
+	emit := func(d c06case) { ps = append(ps, c06childProg{Kind: "fuzz", Src: d.Src}) }
+	all := append(append([]c06val{}, c06U...), c06X...)
+	// invalid / valid / changing regular expressions for `like`
+	all = append(all, c06val{Src: "\"(\""}, c06val{Src: "\"[\""}, c06val{Src: "\"a*\""}, c06val{Src: "\"(\""})
+	small := []c06val{vNull, v1, vM1, v25, vS, vL12, vL123, vMa1, vSNaN, c06val{Src: "\"(\""}}
+	pre := c06prelude + "vals := [" + c06srcs(all) + "]\nsm := [" + c06srcs(small) + "]\n"
+	try := func(body string) string { return "    try {\n      " + body + "\n    } except {\n    }\n" }
+	two := func(body string) {
+		// both nestings: the same right operand twice in a row, and the same left operand twice in a row
+		emit(c06case{"1r", pre + "for q in vals {\n  for p in vals {\n" + try(body) + "  }\n}", ""})
+		emit(c06case{"1r", pre + "for p in vals {\n  for q in vals {\n" + try(body) + "  }\n}", ""})
+	}
+	for _, op := range append(append([]c06binop{}, c06binops...), c06binop{"like", ""}) {
+		two("x := p " + op.Src + " q")
+	}
+	for _, u := range []string{"-", "+", "not "} {
+		emit(c06case{"1r", pre + "for i in range(1, 2) {\n  for p in vals {\n" + try("x := ("+u+"p)") + "  }\n}", ""})
+	}
+	two("x := {p : q}")
+	two("x := p[q]")
+	two("x := p[q][q]")
+	two("p[q] := 1")
+	two("x := [1, 2, 3]\n      x[q] := p\n      y := x[q]")
+	for _, f := range append(append([]string{}, c06unmodelled...), "len", "del", "add", "concat", "new", "type", "raise", "addEvent", "addEventAndWait") {
+		if f == "sleep" || f == "setPulseTrigger" {
+			continue
+		}
+		asg := "x := "
+		if f == "dumpenv" {
+			asg = "" // storing the dump in the dumped scope doubles it every round
+		}
+		emit(c06case{"1r", pre + "for i in range(1, 2) {\n  for p in vals {\n" + try(asg+f+"(p)") + "  }\n}", ""})
+		two(asg + f + "(p, q)")
+		if f == "add" {
+			// add(l, l, i) inserts a list into its own backing array: the cyclic-container
+			// finding (fixes/C06-cyclic-container-print.finding.md), not generated here
+			continue
+		}
+		emit(c06case{"1r", pre + "for p in sm {\n  for q in sm {\n    for r in sm {\n  " + try(asg+f+"(p, q, r)") + "    }\n  }\n}", ""})
+	}
+	two("for z in range(p, q) {\n        break\n      }")
+	two("[y, z] := p\n      for [y, z] in q {\n        y\n      }")
+	return ps
 }
 
 // ------------------------------------------------------------------------------- stream 2
@@ -821,7 +904,7 @@ func c06stream2(c *Ctx) []c06childProg {
 	for i := 0; i < n; i++ {
 		g := &c06gen{c: c, vars: []string{"a", "b", "l", "m", "fn"}, allowRec: os.Getenv("VERIF_C06_ALLOW_RECURSION") != ""}
 		src := c06prelude + "a := " + g.atom() + "\nb := " + g.atom() + "\nl := [1, 2, 3]\nm := {\"a\" : [1, 2], 1 : 2, \"b\" : {\"x\" : 1}}\n" + g.block(2+c.Rng.Intn(2), "")
-		ps = append(ps, c06childProg{"fuzz", src})
+		ps = append(ps, c06childProg{"fuzz", src, 0})
 	}
 	return ps
 }
@@ -829,14 +912,72 @@ func c06stream2(c *Ctx) []c06childProg {
 // ------------------------------------------------------------------------------- streams 3, 4 (child)
 
 type c06childProg struct {
-	Kind string `json:"kind"` // "worker", "fuzz" (any panic / exit is the violation), "trycatch", "sinklocal"
-	Src  string `json:"src"`
+	Kind    string `json:"kind"` // "worker", "fuzz", "conc" (any panic / exit is the violation), "trycatch", "sinklocal"
+	Src     string `json:"src"`
+	Workers int    `json:"workers,omitempty"` // pool size (conc); 0 = the configured default
+}
+
+// c06concProgs: sinks running at the same time on several pool workers, and the main thread,
+// all through ONE runtime provider: nested mutex blocks of one or two names, errors raised
+// inside them, like, element access and list built-ins with erroring operands, many events in
+// flight.  Shared interpreter state that is not synchronised shows up as a Go fatal error
+// (concurrent map access) or a panic, which kills the child.
+func c06concProgs(c *Ctx) []c06childProg {
+	var ps []c06childProg
+	rounds := c.Pick(4000, 20000)
+	inner := []string{
+		"a := i",
+		"a := i + total", // (lock order is always shared -> own: no deadlock written into the program)
+		"try {\n        raise(\"x\", i)\n      } except {\n        a := 1\n      }",
+		"try {\n        a := \"a\" like \"(\"\n      } except {\n        a := l[i % 5]\n      }",
+		"try {\n        a := del(l, i)\n      } except {\n        a := add(l, i, 0)\n      }",
+		"mutex %s {\n        a := [i] in [[i]]\n      }",
+	}
+	for pi, workers := range []int{2, 4, 8, 3} {
+		var sb strings.Builder
+		sb.WriteString("total := 0\nl := [1, 2, 3]\n")
+		for k := 1; k <= workers; k++ {
+			own := fmt.Sprintf("m%d", k)
+			if pi%2 == 1 {
+				own = fmt.Sprintf("m%d", k%2) // only two names: the sinks really contend
+			}
+			body := inner[(k+pi)%len(inner)]
+			if strings.Contains(body, "%s") {
+				body = fmt.Sprintf(body, own)
+			}
+			fmt.Fprintf(&sb, "sink w%d\n  kindmatch [\"work.%d\", \"all\"],\n  {\n    for i in range(1, %d) {\n      mutex %s {\n      %s\n      }\n      mutex shared {\n        mutex %s {\n          total := total + 1\n        }\n      }\n      try {\n        mutex %s {\n          raise(\"inside\")\n        }\n      } except {\n      }\n    }\n  }\n",
+				k, k, rounds, own, body, own, own)
+		}
+		for k := 1; k <= workers; k++ {
+			fmt.Fprintf(&sb, "addEvent(\"e%d\", \"work.%d\", {\"x\" : %d})\n", k, k, k)
+		}
+		// the main thread enters mutex blocks at the same time, more events are added meanwhile
+		fmt.Fprintf(&sb, "for i in range(1, %d) {\n  mutex m0 {\n    a := i\n  }\n  mutex shared {\n    mutex m1 {\n      total := total + 1\n    }\n  }\n  try {\n    mutex m1 {\n      x := l[-9]\n    }\n  } except {\n  }\n}\n", rounds/2)
+		sb.WriteString("res := addEventAndWait(\"last\", \"all\", {})\ntotal")
+		ps = append(ps, c06childProg{Kind: "conc", Src: sb.String(), Workers: workers})
+	}
+	// tight loops: nothing but entering and leaving mutex blocks, on 4 and 8 workers plus the main thread
+	for _, workers := range []int{4, 8} {
+		var sb strings.Builder
+		sb.WriteString("total := 0\n")
+		for k := 1; k <= workers; k++ {
+			fmt.Fprintf(&sb, "sink t%d\n  kindmatch [\"work.%d\"],\n  {\n    for i in range(1, %d) {\n      mutex m%d {\n        a := i\n      }\n      mutex shared {\n        total := total + 1\n      }\n    }\n  }\n", k, k, 4*rounds, k)
+		}
+		for k := 1; k <= workers; k++ {
+			fmt.Fprintf(&sb, "addEvent(\"e%d\", \"work.%d\", {})\n", k, k)
+		}
+		fmt.Fprintf(&sb, "for i in range(1, %d) {\n  mutex m0 {\n    a := i\n  }\n  mutex shared {\n    total := total + 1\n  }\n}\ntotal", 4*rounds)
+		ps = append(ps, c06childProg{Kind: "conc", Src: sb.String(), Workers: workers})
+	}
+	return ps
 }
 
 func c06childProgs(c *Ctx) []c06childProg {
 	var ps []c06childProg
 	all := append(append([]c06val{}, c06U...), c06X...)
 	bodies := []string{
+		"x := event.state.x like \"(\"",
+		"x := \"a\" like event.state.x",
 		"x := event.state.x % 0",
 		"x := 5 % event.state.x",
 		"x := event.state.x == event.state.x",
@@ -856,7 +997,7 @@ func c06childProgs(c *Ctx) []c06childProg {
 		"return event.state.x",
 	}
 	// known finding (fixes/C06-cyclic-container-print.finding.md): a container that contains itself
-	ps = append(ps, c06childProg{"worker", "m := {\"a\" : 1}\nm.x := m\nm hasprefix \"a\""})
+	ps = append(ps, c06childProg{"worker", "m := {\"a\" : 1}\nm.x := m\nm hasprefix \"a\"", 0})
 	// corpus: the defect witnesses on a worker
 	for _, b := range bodies {
 		for _, v := range all {
@@ -864,36 +1005,36 @@ func c06childProgs(c *Ctx) []c06childProg {
 				continue
 			}
 			ps = append(ps, c06childProg{"worker", c06prelude + "sink s1\n  kindmatch [\"a\"],\n  {\n    " + b + "\n  }\nsink s2\n  kindmatch [\"b\"],\n  {\n    x := event.state.x == event.state.x\n  }\n" +
-				"res := addEventAndWait(\"e\", \"a\", {\"x\" : " + v.Src + "})\naddEvent(\"e\", \"a\", {\"x\" : " + v.Src + "})\nres"})
+				"res := addEventAndWait(\"e\", \"a\", {\"x\" : " + v.Src + "})\naddEvent(\"e\", \"a\", {\"x\" : " + v.Src + "})\nres", 0})
 		}
 	}
 	// attribute values of every kind, statematch / event state values of every kind (F04 sites)
 	for _, v := range all {
 		for _, w := range []c06val{v1, vL12, vMa1, vNull, vS} {
 			ps = append(ps, c06childProg{"worker", c06prelude + "sink s1\n  kindmatch [\"a\"],\n  statematch {\"x\" : " + v.Src + "},\n  priority 1,\n  {\n    x := 1\n  }\n" +
-				"res := addEventAndWait(\"e\", \"a\", {\"x\" : " + w.Src + "})\nres := addEventAndWait(\"e\", \"a\", {\"x\" : " + v.Src + "})\nres"})
+				"res := addEventAndWait(\"e\", \"a\", {\"x\" : " + w.Src + "})\nres := addEventAndWait(\"e\", \"a\", {\"x\" : " + v.Src + "})\nres", 0})
 		}
 		for _, a := range c06attrs {
 			ps = append(ps, c06childProg{"worker", c06prelude + "sink s1\n  kindmatch [\"a\", \"*\"],\n  " + a.Src + " " + v.Src + ",\n  {\n    x := 1\n  }\n" +
-				"res := addEventAndWait(\"e\", \"a\", {\"x\" : 1})\nres"})
+				"res := addEventAndWait(\"e\", \"a\", {\"x\" : 1})\nres", 0})
 		}
 		ps = append(ps, c06childProg{"worker", c06prelude + "sink s1\n  kindmatch [" + v.Src + ", \"a\"],\n  scopematch [" + v.Src + "],\n  suppresses [" + v.Src + "],\n  {\n    x := 1\n  }\n" +
-			"res := addEventAndWait(" + v.Src + ", " + v.Src + ", {" + "\"x\" : 1}, {" + "\"s\" : " + v.Src + "})\nres"})
+			"res := addEventAndWait(" + v.Src + ", " + v.Src + ", {" + "\"x\" : 1}, {" + "\"s\" : " + v.Src + "})\nres", 0})
 	}
 	// stream 4a: an error raised inside try is catchable there
 	fails := []string{"5 % 0", "[1] == [1]", "[1] in [[1]]", "{[1] : 2}", "l[-5]", "l[7]", "l[-5] := 1", "del(l, 5)", "add(l, 2, 9)",
 		"raise()", "raise(\"x\")", "1 + \"a\"", "not 1", "1 in 2", "len(1)", "del()", "add(1)", "concat([1])", "new(1)", "type()",
 		"undefinedFunc()", "x.y.z := 1", "[p, q] := [1]", "addEvent(1)", "timestamp(\"x\")", "doc()", "range()", "1 and 2"}
 	for _, f := range fails {
-		ps = append(ps, c06childProg{"trycatch", c06prelude + "l := [1, 2, 3]\nr := 0\ntry {\n  " + f + "\n  r := 2\n} except e {\n  r := 1\n}\nr"})
-		ps = append(ps, c06childProg{"trycatch", c06prelude + "l := [1, 2, 3]\nr := 0\ntry {\n  " + f + "\n  r := 2\n} except {\n  r := 1\n}\nr"})
-		ps = append(ps, c06childProg{"trycatch", c06prelude + "l := [1, 2, 3]\nr := 0\nfunc g() {\n  " + f + "\n}\ntry {\n  g()\n  r := 2\n} except {\n  r := 1\n}\nr"})
+		ps = append(ps, c06childProg{"trycatch", c06prelude + "l := [1, 2, 3]\nr := 0\ntry {\n  " + f + "\n  r := 2\n} except e {\n  r := 1\n}\nr", 0})
+		ps = append(ps, c06childProg{"trycatch", c06prelude + "l := [1, 2, 3]\nr := 0\ntry {\n  " + f + "\n  r := 2\n} except {\n  r := 1\n}\nr", 0})
+		ps = append(ps, c06childProg{"trycatch", c06prelude + "l := [1, 2, 3]\nr := 0\nfunc g() {\n  " + f + "\n}\ntry {\n  g()\n  r := 2\n} except {\n  r := 1\n}\nr", 0})
 	}
 	// stream 4b: an error inside a sink fails only that sink invocation
 	for _, f := range fails {
 		ps = append(ps, c06childProg{"sinklocal", c06prelude + "l := [1, 2, 3]\nsink bad\n  kindmatch [\"a\"],\n  priority 1,\n  {\n    " + f + "\n  }\n" +
 			"sink good\n  kindmatch [\"a\"],\n  priority 2,\n  {\n    mark(\"good\")\n  }\nsink other\n  kindmatch [\"b\"],\n  {\n    mark(\"other\")\n  }\n" +
-			"res1 := addEventAndWait(\"e\", \"a\", {})\nres2 := addEventAndWait(\"e\", \"b\", {})\nres3 := addEventAndWait(\"e\", \"a\", {})\n[res1, res2, res3]"})
+			"res1 := addEventAndWait(\"e\", \"a\", {})\nres2 := addEventAndWait(\"e\", \"b\", {})\nres3 := addEventAndWait(\"e\", \"a\", {})\n[res1, res2, res3]", 0})
 	}
 	return ps
 }
@@ -935,6 +1076,9 @@ func runC06Child(c *Ctx) error {
 }
 
 func c06childRun(p c06childProg) string {
+	if p.Workers > 0 {
+		config.Config[config.WorkerCount] = p.Workers
+	}
 	erp := interpreter.NewECALRuntimeProvider("c06", nil, nil)
 	erp.Cron.Stop()
 	defer func() {
@@ -949,6 +1093,9 @@ func c06childRun(p c06childProg) string {
 	if err = ast.Runtime.Validate(); err != nil {
 		if p.Kind == "worker" || p.Kind == "fuzz" {
 			return ""
+		}
+		if p.Kind == "conc" {
+			return "generator: concurrency program did not validate: " + err.Error()
 		}
 		return "generator: program did not validate: " + err.Error()
 	}
@@ -1096,7 +1243,7 @@ func c06runChild(c *Ctx, ps []c06childProg) {
 					key = key[:60]
 				}
 			}
-			c.Violate(key, msg, c06case{Stream: c06streamOf(culprit), Src: culprit.Src})
+			c.Violate(key, msg, c06case{Stream: c06streamOf(culprit), Src: culprit.Src, Call: c06workersTag(culprit)})
 			c.Count(culprit.Src, true, c06case{Stream: c06streamOf(culprit), Src: culprit.Src})
 		}
 		start += lastStart + 1
@@ -1107,9 +1254,25 @@ func c06runChild(c *Ctx, ps []c06childProg) {
 	os.RemoveAll(filepath.Join(c.Out, "c06_child_out"))
 }
 
+// the pool size of a concurrency program travels in the Call field of its replay
+func c06workersTag(p c06childProg) string {
+	if p.Workers > 0 {
+		return fmt.Sprintf("workers=%d", p.Workers)
+	}
+	return ""
+}
+
+func c06workersOf(tag string) int {
+	n, _ := strconv.Atoi(strings.TrimPrefix(tag, "workers="))
+	return n
+}
+
 func c06streamOf(p c06childProg) string {
 	if p.Kind == "fuzz" {
 		return "2"
+	}
+	if p.Kind == "conc" {
+		return "3c"
 	}
 	return "3"
 }
@@ -1136,7 +1299,7 @@ func tail(s string, n int) string {
 // ------------------------------------------------------------------------------- main
 
 func runC06(c *Ctx) error {
-	c.Rule = "stream 1: every modelled primitive (18 binary and 3 unary operators, map literal incl. malformed entries, element read / assignment with one and two indices, 10 built-ins, 5 sink attributes, raise inside try) x argument vectors over the universe {null, true, 0, 1, -1, 2.5, 1e+300, \"s\", \"\", [], [1,2], [[1]], {}, {\"a\":1}, a function} extended by boundary values {5,-5,3,2,-2,-3,0.5,NaN,+Inf,\"NaN\",\"1\",[1,2,3],{\"super\":1},{1:2},false,[\"a\"]}: exhaustive for operators and for built-in vectors of length 0..2, all (thorough) or a seeded quarter (quick) of length 3, seeded samples of length 4; outcome class compared with the Coq model; unmodelled built-ins for panics only.  stream 2: seeded random syntactically valid programs (depth <= 3) with ill-typed and boundary operands, executed in the child process, any panic or fatal error is a violation (generated functions do not call each other: user-written recursion is excluded by the property).  streams 3/4 (child process, real pool workers): sinks x event state values x panicking bodies, attribute values of every kind, errors inside try, errors inside one sink of several.  non-trivial = the outcome is not a plain value; distinct by program text"
+	c.Rule = "stream 1: every modelled primitive (18 binary and 3 unary operators, map literal incl. malformed entries, element read / assignment with one and two indices, 10 built-ins, 5 sink attributes, raise inside try) x argument vectors over the universe {null, true, 0, 1, -1, 2.5, 1e+300, \"s\", \"\", [], [1,2], [[1]], {}, {\"a\":1}, a function} extended by boundary values {5,-5,3,2,-2,-3,0.5,NaN,+Inf,\"NaN\",\"1\",[1,2,3],{\"super\":1},{1:2},false,[\"a\"]}: exhaustive for operators and for built-in vectors of length 0..2, all (thorough) or a seeded quarter (quick) of length 3, seeded samples of length 4; outcome class compared with the Coq model; unmodelled built-ins for panics only.  stream 2: seeded random syntactically valid programs (depth <= 3) with ill-typed and boundary operands, executed in the child process, any panic or fatal error is a violation (generated functions do not call each other: user-written recursion is excluded by the property).  stream 1r: every stream-1 corpus case and a seeded share of the others again inside a loop and inside a function called three times, plus one program per operator / access form / built-in whose single node sees all operand combinations in both nestings (same node, alternating valid and invalid operands), any panic is a violation.  stream 3c (child process): 2-8 sinks on as many pool workers and the main thread entering nested mutex blocks of one or two names with errors, like, element access and list built-ins inside, thousands of rounds; a dead child is a violation keyed by its class.  streams 3/4 (child process, real pool workers): sinks x event state values x panicking bodies, attribute values of every kind, errors inside try, errors inside one sink of several.  non-trivial = the outcome is not a plain value; distinct by program text"
 	c.BeginCases("From Ecal Require Import Model.Prims Run.RunC06.\nFrom Coq Require Import ZArith String List.\nImport ListNotations.\nOpen Scope string_scope.", "case", 500)
 
 	if c.Replay != "" {
@@ -1149,6 +1312,11 @@ func runC06(c *Ctx) error {
 			c06interpStream(c) // interpreter model stream (c06_interp.go)
 		case "2":
 			c06runChild(c, []c06childProg{{Kind: "fuzz", Src: d.Src}})
+		case "3c":
+			// depends on the interleaving: several attempts
+			for i := 0; i < 5 && len(c.Violations) == 0; i++ {
+				c06runChild(c, []c06childProg{{Kind: "conc", Src: d.Src, Workers: c06workersOf(d.Call)}})
+			}
 		case "3", "4":
 			c06runChild(c, []c06childProg{{Kind: "worker", Src: d.Src}})
 			if d.Stream == "4" {
@@ -1164,16 +1332,25 @@ func runC06(c *Ctx) error {
 		return nil
 	}
 
+	nEmitted := 0
 	emit := func(d c06case) {
 		if c.Enough() {
 			return
 		}
 		c06one(c, d)
+		nEmitted++
+		// repeated evaluation of the same nodes: the corpus always, a seeded share of the rest
+		if d.Stream == "1" && (nEmitted <= c.Extra["corpus"].(int) || c.Rng.Intn(c.Pick(8, 2)) == 0) {
+			c06repeat(c, d)
+		}
 	}
+	c.Extra["corpus"] = 0
 	c06stream1(c, emit)
 	if !c.Enough() {
 		// known-finding witness and worker programs first, then the random programs of stream 2
-		c06runChild(c, append(c06childProgs(c), c06stream2(c)...))
+		ps := append(c06childProgs(c), c06concProgs(c)...)
+		ps = append(ps, c06alternating(c)...)
+		c06runChild(c, append(ps, c06stream2(c)...))
 	}
 	if !c.Enough() {
 		c06interpStream(c) // stream 5: whole programs against Model/Interp.v (c06_interp.go, own case files)
